@@ -310,7 +310,10 @@ func c20Child(t *testing.T, work string, roots []string) []c20Result {
 	case cerr = <-done:
 	case <-time.After(10 * time.Minute):
 		cmd.Process.Kill()
-		cerr = fmt.Errorf("timeout")
+		t.Fatalf("harness: child process timed out")
+	}
+	if _, exited := cerr.(*exec.ExitError); cerr != nil && !exited {
+		t.Fatalf("harness: child process could not be run: %v", cerr) // machinery, not a verdict
 	}
 	var res []c20Result
 	if f, err := os.Open(outp); err == nil {
@@ -352,7 +355,7 @@ func c20Child(t *testing.T, work string, roots []string) []c20Result {
 }
 
 // c20RunBatch builds every case `runs` times here and `children` times in fresh processes and logs the events.
-func c20RunBatch(t *testing.T, enc *json.Encoder, work string, cases []c20Case, runs, children int) {
+func c20RunBatch(t *testing.T, enc *json.Encoder, leg, work string, cases []c20Case, runs, children int) {
 	roots := make([]string, len(cases))
 	base := filepath.Join(work, "c20trees")
 	defer os.RemoveAll(base)
@@ -398,7 +401,7 @@ func c20RunBatch(t *testing.T, enc *json.Encoder, work string, cases []c20Case, 
 			enc.Encode(map[string]interface{}{"k": "file", "f": f})
 		}
 		for r, res := range results[i] {
-			ev := map[string]interface{}{"k": "build", "run": r + 1, "proc": procs[i][r], "res": res.Res, "out": res.Out}
+			ev := map[string]interface{}{"k": "build", "leg": leg, "run": r + 1, "proc": procs[i][r], "res": res.Res, "out": res.Out}
 			if res.Msg != "" {
 				ev["msg"] = res.Msg
 			}
@@ -475,7 +478,7 @@ func TestVerifC20Run(t *testing.T) {
 					cases[k] = c20RealTree(t)
 				}
 			}
-			c20RunBatch(t, enc, work, cases[i:j], runs, children)
+			c20RunBatch(t, enc, "G", work, cases[i:j], runs, children)
 		}
 		w.Flush()
 		out.Close()
@@ -504,7 +507,7 @@ func TestVerifC20Run(t *testing.T) {
 			if j > len(cases) {
 				j = len(cases)
 			}
-			c20RunBatch(t, enc, work, cases[i:j], runs, children)
+			c20RunBatch(t, enc, "T", work, cases[i:j], runs, children)
 		}
 		w.Flush()
 		out.Close()
@@ -534,7 +537,7 @@ func c20RandLines(rng *rand.Rand, n int, types string, ctr *int, maxR int) []c20
 		sym := ""
 		if t != "B" && !(t == "T" && rng.Intn(2) == 0) {
 			sym = c20Syms[rng.Intn(len(c20Syms))]
-			if rng.Intn(4) != 0 {
+			if t == "R" || rng.Intn(4) != 0 { // annotations of a tree are pairwise different; look-alikes may repeat a symbol
 				*ctr++
 				sym += strconv.Itoa(*ctr)
 			}
